@@ -208,3 +208,368 @@ def rule_barrier(ctx, fold_analyse, floor=2):
     r.positive_control(got == {'visit_Node': False, 'visit_DivNode': True, 'visit_ModNode': False, 'visit_NumBinopNode': True},
                        'barrier made conditional on zerodivision_check (fires) next to one conditional on a float result (silent)')
     return r
+
+
+# ====================================================================================================================================
+# C04-ARITH: the checked-arithmetic helpers of Overflow.c flag every result that does not fit (bounded model check at a model width)
+# ====================================================================================================================================
+"""(C04-ARITH)  The base-case helpers __Pyx_{add,sub,mul}[_const]_<T>_checking_overflow and __Pyx_lshift_<T>_checking_overflow are
+width-parametric C templates: they mention the width of their type only through sizeof(), through the __PYX_MIN/__PYX_MAX/__PYX_HALF_MAX
+macros and through the literal 8 (bits per byte).  The rule checks that premise syntactically (no other integer literal than 0, 1, 2, 8)
+and then evaluates the helper text with the checker's own C interpreter (rules/pC03.py: integer promotions, usual arithmetic conversions,
+unsigned wrap-around, undefined behaviour detected) on model machines whose integer type has W = 4 bits, over ALL 2**W x 2**W operand pairs,
+for both signednesses, both preprocessor arms (__builtin_*_overflow / portable fallback), every sizeof() arm of the fallback (a wider
+`long`, only a wider `long long`, no wider type) and every answer of __Pyx_is_constant().  Obligations per pair:
+
+    exact result not representable in T   =>  *overflow != 0 afterwards                 (never wraps)
+    exact result representable, bit clear =>  returned value == exact result            (exact or raises)
+    no undefined C operation is executed                                                   (never crashes)
+
+A spurious overflow bit on a fitting result is tolerated (the property says so) and only counted.  What is NOT decided: that the
+production widths behave like the model width (rests on the parametricity premise)."""
+import re
+
+from ..engine.cutil import strip_c_comments
+from . import pC03 as MC
+
+ARITH_RID = 'C04-ARITH'
+OVF = 'Overflow.c'
+MODEL_W = 4
+ALLOWED_LITERALS = {0, 1, 2, 8}
+T = 'sa_t'
+
+
+def _models(signed):
+    """model machines exercising each sizeof() arm of the fallback helpers for the type under test (W bits)"""
+    W = MODEL_W
+    out = []
+    for name, lw, llw in (('wider long', 2 * W, 2 * W), ('wider long long only', W, 2 * W), ('no wider type', W, W)):
+        out.append(MC.Model({'char': (W, True), 'short': (W, True), 'int': (W, True), 'long': (lw, True), 'long long': (llw, True),
+                             'size_t': (2 * W, False), T: (W, signed)}, name))
+    return out
+
+
+def _hooks(const_names):
+    def builtin(op):
+        def h(it, args, env):
+            if len(args) != 3:
+                raise MC.Unsupported('__builtin_%s_overflow with %d arguments' % (op, len(args)))
+            a, b = it._int(it.ev(args[0], env)), it._int(it.ev(args[1], env))
+            ref = it.ev(args[2], env)
+            if not isinstance(ref, MC.Ref):
+                raise MC.Unsupported('__builtin_%s_overflow: third argument is not an address' % op)
+            exact = {'add': a[0] + b[0], 'sub': a[0] - b[0], 'mul': a[0] * b[0]}[op]
+            t = ref.cell.t
+            ref.cell.v = MC.wrap(exact, t[0], t[1])
+            return (int(not MC.fits(exact, t[0], t[1])), it.model.int_t[0], True)
+        return h
+
+    def is_constant(it, args, env):
+        if len(args) == 1 and args[0][0] == 'id':
+            return (int(bool(const_names.get(args[0][1], 0))), it.model.int_t[0], True)
+        return (0, it.model.int_t[0], True)
+
+    def fatal(it, args, env):
+        raise MC.CUndefined('Py_FatalError() reached')
+    return {'__builtin_add_overflow': builtin('add'), '__builtin_sub_overflow': builtin('sub'), '__builtin_mul_overflow': builtin('mul'),
+            '__Pyx_is_constant': is_constant, '__builtin_constant_p': is_constant, 'Py_FatalError': fatal}
+
+
+def _section(ctx, name, part):
+    d = ctx.cat.files.get(OVF, {}).get(name, {})
+    s = d.get(part)
+    if s is None:
+        raise AnalysisError('%s: Overflow.c::%s.%s vanished' % (ARITH_RID, name, part))
+    return s
+
+
+def _common_macros(ctx):
+    raw = strip_c_comments(_section(ctx, 'Common', 'proto').raw)
+    defs = MC.macros(MC.select_variant(raw, lambda c: False))
+    for k in ('__Pyx_is_constant', '__PYX_HAVE_BUILTIN_OVERFLOW'):
+        defs.pop(k, None)
+    isu = [d for d in ctx.cat.decls.get('__PYX_IS_UNSIGNED', []) if d.kind == 'macro' and 'IMPL' not in (d.body or '')]
+    if not isu:
+        raise AnalysisError('%s: the C definition of __PYX_IS_UNSIGNED vanished' % ARITH_RID)
+    defs['__PYX_IS_UNSIGNED'] = ([p.strip() for p in isu[0].params], ' '.join(isu[0].body.split()))
+    return defs
+
+
+def _instantiate(raw, env):
+    text = strip_c_comments(raw)
+    text = P4.tempita_subst(text, env)
+    if '{{' in text:
+        raise AnalysisError('%s: template token left after substitution: %s' % (ARITH_RID, text[text.index('{{'):][:40]))
+    return text
+
+
+def _exact(op, a, b):
+    if op == 'add':
+        return a + b
+    if op == 'sub':
+        return a - b
+    if op == 'mul':
+        return a * b
+    if op == 'lshift':
+        if b < 0:
+            return None         # not a value: must be flagged
+        return a << b if b < 64 else (0 if a == 0 else None)
+    raise AnalysisError('%s: no reference semantics for helper %r' % (ARITH_RID, op))
+
+
+def arith_check(text, common, fname, op, signed, builtin_arm, extra_truth=None, memo=None):
+    """-> (pairs evaluated, spurious, first problem or None, arms seen).  text: instantiated section (impl [+ proto])."""
+    def truth(c):
+        c = ' '.join(c.split())
+        if c == 'defined(__PYX_HAVE_BUILTIN_OVERFLOW)':
+            return builtin_arm
+        if re.fullmatch(r'\d+', c):
+            return bool(int(c))
+        if extra_truth is not None:
+            return extra_truth(c)
+        raise AnalysisError('%s: preprocessor condition %r inside the checked-arithmetic helpers is not modelled' % (ARITH_RID, c))
+    sel = MC.select_variant(text, truth)
+    funcs = MC.functions(sel)
+    defs = dict(common)
+    defs.update(MC.macros(sel))
+    name = fname
+    for _ in range(5):          # follow alias macros (#define __Pyx_add_const_X __Pyx_add_X)
+        if name in funcs:
+            break
+        if name in defs and defs[name][0] is None and re.fullmatch(r'\w+', defs[name][1]):
+            name = defs[name][1]
+        else:
+            break
+    if name not in funcs:
+        return 0, 0, ('missing', 'no definition of %s in this preprocessor variant' % fname), set()
+    f = funcs[name]
+    if len(f.params) != 3 or not f.params[2][2]:
+        return 0, 0, ('signature', '%s does not take (a, b, int *overflow)' % name), set()
+    if memo is not None:
+        mk = (name, op, signed, builtin_arm)
+        if mk in memo:
+            return memo[mk]          # an alias (#define x_const x) of a helper that was evaluated already in this variant
+        res = arith_check(text, common, name, op, signed, builtin_arm, extra_truth)
+        memo[mk] = res
+        return res
+    lo, hi = MC.lo_hi(MODEL_W, signed)
+    n = spurious = 0
+    arms = set()
+    # the text this helper can reach (callees inside the section, transitively): decides which parameters of the model matter
+    reach, todo = {}, [f]
+    while todo:
+        g = todo.pop()
+        if g.name in reach:
+            continue
+        reach[g.name] = g.body_text
+        for other in funcs.values():
+            if other.name not in reach and re.search(r'\b%s\b' % re.escape(other.name), g.body_text):
+                todo.append(other)
+        for mname, (mp, mb) in defs.items():
+            if mp is None and re.fullmatch(r'\w+', mb or '') and mb in funcs and re.search(r'\b%s\b' % re.escape(mname), g.body_text):
+                todo.append(funcs[mb])
+    rtext = '\n'.join(reach.values())
+    all_models = _models(signed)
+    uses_const = '__Pyx_is_constant' in rtext
+    runs = [(m, (0, 0)) for m in (all_models if 'sizeof' in rtext else all_models[:1])]
+    if uses_const:
+        runs += [(all_models[0], c) for c in ((0, 1), (1, 0), (1, 1))]     # a "constant" operand leads to the *_const helper, which has no sizeof() arm
+        if any('sizeof' in funcs[k].body_text for k in reach if k != f.name):
+            runs = [(m, c) for m in all_models for c in ((0, 0), (0, 1), (1, 0), (1, 1))]
+    cache = {}
+    for model, (ca, cb) in runs:
+        if True:
+            cn = {f.params[0][1]: ca, f.params[1][1]: cb}
+            it = MC.Interp(model, funcs, defs, _hooks(cn), cache)
+            for a in range(lo, hi + 1):
+                for b in range(lo, hi + 1):
+                    n += 1
+                    bit = MC.Cell(0, model.int_t)
+                    it.steps = 0
+                    it.trace = []
+                    where = '%s(%d, %d) on the model machine "%s" (%d-bit %s type%s%s)' % (
+                        fname, a, b, model.name, MODEL_W, 'signed' if signed else 'unsigned',
+                        ', __builtin_*_overflow arm' if builtin_arm else ', portable arm',
+                        '' if not uses_const else ', __Pyx_is_constant(a)=%d (b)=%d' % (ca, cb))
+                    try:
+                        r = it.call_func(f, [(a, MODEL_W, signed), (b, MODEL_W, signed), MC.Ref(bit)])
+                    except MC.CUndefined as u:
+                        return n, spurious, ('undefined', '%s executes undefined behaviour: %s' % (where, u)), arms
+                    except MC.Goto as g:
+                        raise AnalysisError('%s: goto %s leaves %s' % (ARITH_RID, g.label, fname))
+                    arms.add(tuple(it.trace))
+                    exact = _exact(op, a, b)
+                    ok = exact is not None and MC.fits(exact, MODEL_W, signed)
+                    if not ok:
+                        if not bit.v:
+                            return n, spurious, ('unflagged', '%s: the exact result %s does not fit the type but the overflow bit stays 0 (returned %d): the value wraps silently'
+                                                 % (where, 'is undefined' if exact is None else exact, r[0])), arms
+                    elif bit.v:
+                        spurious += 1
+                    elif r[0] != exact:
+                        return n, spurious, ('wrong-value', '%s returns %d with a clear overflow bit, the exact result is %d' % (where, r[0], exact)), arms
+    return n, spurious, None, arms
+
+
+ARITH_POSITIVE = '''
+static CYTHON_INLINE sa_t __Pyx_add_sa_checking_overflow(sa_t a, sa_t b, int *overflow) {
+    unsigned sa_t r = (unsigned sa_t) a + (unsigned sa_t) b;
+    *overflow |= (((unsigned sa_t)a ^ (unsigned sa_t)b) & ((unsigned sa_t)a ^ r)) >> (8 * sizeof(sa_t) - 1);
+    return (sa_t) r;
+}
+'''
+
+
+def op_names(ctx):
+    ix = ctx.index
+    nb = ix.cls('ExprNodes', 'NumBinopNode')
+    tab = P4.literal_dict_attr(ix, nb, 'overflow_op_names') if nb is not None else None
+    if not tab:
+        raise AnalysisError('%s: ExprNodes.NumBinopNode.overflow_op_names vanished' % ARITH_RID)
+    return sorted(set(tab[1].values()))
+
+
+def rule_arith(ctx, floor=20):
+    r = Rule(ARITH_RID, 'the checked-arithmetic helpers of Overflow.c set the overflow bit for every operand pair whose exact result does not fit, return the exact '
+                        'result otherwise and execute no undefined C operation: bounded model check of the helper text over all operand pairs of a %d-bit model type' % MODEL_W, floor)
+    common = _common_macros(ctx)
+    ops = op_names(ctx)
+    rel = 'Cython/Utility/' + OVF
+    spur_total = 0
+    for signed, sec, key in ((True, 'BaseCaseSigned', 'INT'), (False, 'BaseCaseUnsigned', 'UINT')):
+        impl, proto = _section(ctx, sec, 'impl'), _section(ctx, sec, 'proto')
+        tname = T if signed else 'unsigned ' + T
+        # the template spells the unsigned counterpart as `unsigned {{INT}}`: the model type name must survive that prefix
+        text = _instantiate(proto.raw + '\n' + impl.raw, {key: T if signed else T, 'NAME': 'sa'})
+        if not signed:
+            text = text     # UINT := sa_t with the model declaring sa_t unsigned
+        lits = MC.literals(MC.select_variant(text, lambda c: True)) | MC.literals(MC.select_variant(text, lambda c: False))
+        if not lits <= ALLOWED_LITERALS:
+            r.info('%s mentions the integer literal(s) %s: the helpers are not width-parametric any more and are not decided at the model width' % (sec, sorted(lits - ALLOWED_LITERALS)))
+            continue
+        memo = {}
+        for op in ops:
+            if op == 'lshift':
+                continue
+            for variant in (op, op + '_const'):
+                fname = '__Pyx_%s_sa_checking_overflow' % variant
+                for builtin_arm in (True, False):
+                    k = '%s:%s:%s:%s' % (OVF, sec, variant, 'builtin' if builtin_arm else 'portable')
+                    n, spurious, prob, arms = arith_check(text, common, fname, op, signed, builtin_arm, memo=memo)
+                    spur_total += spurious
+                    r.inst(k, sample='%s: %d operand pairs, %d spurious, call chains %s' % (k, n, spurious, sorted({'>'.join(a) for a in arms})[:3]))
+                    if prob:
+                        line = impl.line + impl.raw[:max(impl.raw.find('__Pyx_%s_{{NAME}}_checking_overflow(' % variant.replace('_const', '') if prob[0] != 'missing' else variant), 0)].count('\n')
+                        r.violate('%s:%s' % (k, prob[0]), rel, line, '%s::%s, helper %s: %s' % (OVF, sec, variant, prob[1]))
+    # LeftShift
+    if 'lshift' in ops:
+        ls = _section(ctx, 'LeftShift', 'proto')
+        for signed in (True, False):
+            text = _instantiate(ls.raw, {'TYPE': T, 'NAME': 'sa', 'SIGNED': '1' if signed else '0'})
+            lits = MC.literals(text)
+            k = '%s:LeftShift:%s' % (OVF, 'signed' if signed else 'unsigned')
+            if not lits <= ALLOWED_LITERALS:
+                r.info('LeftShift mentions the integer literal(s) %s: not width-parametric, not decided' % sorted(lits - ALLOWED_LITERALS))
+                continue
+            memo = {}
+            for variant in ('lshift', 'lshift_const'):
+                n, spurious, prob, arms = arith_check(text, common, '__Pyx_%s_sa_checking_overflow' % variant, 'lshift', signed, False, memo=memo)
+                spur_total += spurious
+                r.inst(k + ':' + variant, sample='%s:%s: %d operand pairs, %d spurious' % (k, variant, n, spurious))
+                if prob:
+                    r.violate('%s:%s:%s' % (k, variant, prob[0]), rel, ls.line, '%s::LeftShift (%s): %s' % (OVF, 'SIGNED' if signed else 'unsigned', prob[1]))
+    r.info('%d operand pairs with a spurious overflow bit on a fitting result (tolerated by the property)' % spur_total)
+    n, sp, prob, arms = arith_check(ARITH_POSITIVE, common, '__Pyx_add_sa_checking_overflow', 'add', True, False)
+    r.positive_control(prob is not None and prob[0] == 'unflagged', 'signed add with the sign formula of the subtraction')
+    return r
+
+
+# ====================================================================================================================================
+# dispatch table of Overflow.c::Binop (used by C04-DISPATCH) and the SIGNED key of LeftShift (C04-ARITH context check)
+# ====================================================================================================================================
+BASE_HELPER_TYPES = ('int', 'unsigned int', 'long', 'unsigned long', 'long long', 'unsigned long long')
+DISPATCH_MODELS = {'ILP32': (32, 32), 'LP64': (64, 64), 'LLP64': (32, 64)}
+
+
+def dispatch_table(ctx, raw=None):
+    """decision table of the Binop dispatcher: for every integer type T of at least int rank (both signednesses, ILP32 / LP64 / LLP64) the helper it
+    forwards to.  -> (rows [(model, T text, called)], problems [(key, message)]).  The dispatcher text is evaluated by rules/pC03 with the base helpers
+    replaced by recording stubs; an arm that computes with the plain C operator (the *_no_overflow macros) shows up as `no helper called`."""
+    if raw is None:
+        raw = _section(ctx, 'Binop', 'impl').raw
+    text = _instantiate(raw, {'TYPE': T, 'NAME': 'sa', 'BINOP': 'add'})
+    funcs = MC.functions(text)
+    fname = '__Pyx_add_sa_checking_overflow'
+    if fname not in funcs:
+        raise AnalysisError('C04-DISPATCH: the Binop template no longer defines __Pyx_{{BINOP}}_{{NAME}}_checking_overflow')
+    common = _common_macros(ctx)
+    rows, probs = [], []
+    cache = {}
+    for mname, (lbits, pbits) in DISPATCH_MODELS.items():
+        base = {'char': (8, True), 'short': (16, True), 'int': (32, True), 'long': (lbits, True), 'long long': (64, True), 'size_t': (pbits, False)}
+        for bits in sorted({32, lbits, 64}):
+            for signed in (True, False):
+                types = dict(base)
+                types[T] = (bits, signed)
+                model = MC.Model(types, mname)
+                called = []
+
+                def stub(name):
+                    def h(it, args, env, name=name):
+                        called.append(name)
+                        return (0, bits, signed)
+                    return h
+                hooks = {'__Pyx_add_%s_checking_overflow' % x.replace(' ', '_'): stub(x) for x in BASE_HELPER_TYPES}
+                hooks['Py_FatalError'] = lambda it, args, env: called.append('Py_FatalError') or (0, 32, True)
+                it = MC.Interp(model, funcs, common, hooks, cache)
+                try:
+                    it.call_func(funcs[fname], [(1, bits, signed), (1, bits, signed), MC.Ref(MC.Cell(0, (32, True)))])
+                except MC.Unsupported as u:
+                    raise AnalysisError('C04-DISPATCH: the Binop dispatcher is outside the modelled C subset: %s' % u)
+                except MC.CUndefined as u:
+                    called.append('undefined: %s' % u)
+                tdesc = '%s %d-bit type' % ('a signed' if signed else 'an unsigned', bits)
+                rows.append((mname, tdesc, list(called)))
+                ok = {x for x in BASE_HELPER_TYPES if model.ctype(x) == (bits, signed)}
+                if not called:
+                    probs.append(('unchecked', 'for %s on %s the dispatcher calls no checked helper at all (it computes with the plain C operator through __Pyx_<op>_no_overflow): '
+                                               'the operation wraps silently' % (tdesc, mname)))
+                elif called[0] not in ok:
+                    probs.append(('wrong-helper:%s' % called[0].replace(' ', '_'), 'for %s on %s the dispatcher forwards to %s, whose type is %d-bit %s: operands are truncated or the '
+                                  'overflow bound of another signedness is applied' % (tdesc, mname, called[0] if called[0] in BASE_HELPER_TYPES else called[0],
+                                                                                        model.ctype(called[0])[0] if called[0] in BASE_HELPER_TYPES else 0,
+                                                                                        ('signed' if model.ctype(called[0])[1] else 'unsigned') if called[0] in BASE_HELPER_TYPES else '?')))
+    seen, out = set(), []
+    for k, m in probs:
+        if k not in seen:
+            seen.add(k)
+            out.append((k, m))
+    return rows, out
+
+
+def signed_key_problems(ctx):
+    """[(site key, rel, line, message)] : the SIGNED key of every LeftShift instantiation is truthy exactly for signed types"""
+    out, n = [], 0
+    for s in P4.load_sites(ctx, OVF):
+        if not s.sections or 'LeftShift' not in s.sections:
+            continue
+        items = P4.context_items(s)
+        if not items or 'SIGNED' not in items:
+            continue
+        n += 1
+        node = items['SIGNED']
+        key = '%s.%s:LeftShift:SIGNED' % (s.module.short, s.qual)
+        vals = {}
+        try:
+            for sv in (0, 1, 2):
+                vals[sv] = bool(P2.Ev(subst={'self.signed': sv}).ev(node))
+        except P2.Unknown:
+            out.append((key, s.module.rel, s.call.lineno, None))
+            continue
+        bad = [sv for sv in (0, 1, 2) if vals[sv] != (sv != 0)]
+        if bad:
+            out.append((key, s.module.rel, s.call.lineno,
+                        '%s instantiates Overflow.c::LeftShift with SIGNED = %s, which is %s for self.signed == %d: the `#if {{SIGNED}}` arm that rejects negative operands '
+                        'is compiled for the wrong signedness (a negative shift count / a negative value is shifted, undefined behaviour instead of OverflowError)'
+                        % (s.qual, node_src(node, 40), vals[bad[0]], bad[0])))
+    return n, out
